@@ -38,8 +38,12 @@ impl Process for Rec {
 
 /// The error a test process fails with: a different kind for each process name (a handler may fail with any error,
 /// e.g. one it got back from an operation on a connection).
+thread_local! { static FAIL_SALT: std::cell::Cell<usize> = const { std::cell::Cell::new(0) }; }
+/// Shifts which error each process name fails with (set per execution, so that every process meets every kind across a sweep).
+pub fn set_failure_salt(n: usize) { FAIL_SALT.with(|c| c.set(n)); }
+
 pub fn failure_for(name: &str) -> edp_node::Error {
-    match name.bytes().last().unwrap_or(0) as usize % 6 {
+    match (name.bytes().last().unwrap_or(0) as usize + FAIL_SALT.with(|c| c.get())) % 6 {
         0 => edp_node::Error::InvalidMessage("asked to die".into()),
         1 => edp_node::Error::Client(edp_client::Error::Io(std::io::Error::new(std::io::ErrorKind::BrokenPipe, "asked to die"))),
         2 => edp_node::Error::Client(edp_client::Error::Timeout(std::time::Duration::from_secs(1))),
